@@ -174,6 +174,12 @@ func c06Positions() []position {
 		add("logic-right-in-cond/"+op, "if vb "+op+" $X {\n}", "bool")
 		add("logic-third/"+op, "t := vb "+op+" vb "+op+" $X", "bool")
 	}
+	add("cmp-chain-third/==", "t := vi < 2 == $X", "bool")
+	add("cmp-chain-third/!=", "t := vi >= vj != $X", "bool")
+	add("cmp-chain-first/<", "t := $X < 2 == vb", "int")
+	add("cmp-chain-first/==", "t := $X == vj == vb", "int")
+	add("cmp-chain-string-third", "t := vs == \"a\" != $X", "bool")
+	add("cmp-chain-in-cond", "if vi > 0 == $X {\n}", "bool")
 	add("not", "t := !$X", "bool")
 	add("cond-if", "if $X {\n}", "bool")
 	add("cond-else-if", "if vb {\n} else if $X {\n}", "bool")
@@ -212,6 +218,10 @@ func c06Positions() []position {
 	add("short-any", "t := $X", anyval...)
 	add("short-two-from-call", "t, u := $X", "multi")
 	add("short-two-second", "t, u := 1, $X", anyval...)
+	// := re-using a variable of the SAME scope must keep its type (in an inner block Go would shadow: not asserted)
+	ps = append(ps, position{name: "short-partial-redefinition-int", tmpl: "vi, nn := $X, 2\n", allowed: []string{"int"}, kind: "func"})
+	ps = append(ps, position{name: "short-partial-redefinition-string", tmpl: "nn, vs := 2, $X\n", allowed: []string{"string"}, kind: "func"})
+	ps = append(ps, position{name: "short-partial-redefinition-slice", tmpl: "si, nn := $X, 2\n", allowed: []string{"[]int"}, kind: "func"})
 	add("var-untyped", "var t = $X", anyval...)
 	add("assign-int", "vi = $X", "int")
 	add("assign-bool", "vb = $X", "bool")
@@ -372,6 +382,10 @@ func c06Cells(thorough bool) []c06Cell {
 	}
 	// fixed cells that do not depend on an offered value
 	fixed := map[string][2]string{
+		"fixed/bracketless-func-with-arg":   {"func nb {\n}\nnb(1)\n", "reject"},
+		"fixed/bracketless-func-two-args":   {"func nb {\n}\nnb(vi, \"a\")\n", "reject"},
+		"fixed/bracketless-func-no-arg":     {"func nb {\n}\nnb()\n", "accept"},
+		"fixed/bracketless-valued-with-arg": {"func nbv int {\n\treturn 1\n}\nt := nbv(2)\n", "reject"},
 		"fixed/arity-missing":         {"gi()\n", "reject"},
 		"fixed/arity-extra":           {"gi(1, 2)\n", "reject"},
 		"fixed/arity-two-missing":     {"g2(1)\n", "reject"},
@@ -452,6 +466,12 @@ func verdictOf(r TResult) string {
 	return "accept"
 }
 
+// importedVariant wraps a cell's program into an imported file: name resolution then runs with a
+// non-empty prefix, the verdict must stay the same.
+func importedVariant(src string) (string, map[string]string) {
+	return "import m \"lib.tsh\"\n\nprint(1)\n", map[string]string{"lib.tsh": src}
+}
+
 func checkC06(c *Check) {
 	c.Rule = "exhaustive typing table: every typed position of the grammar x every offered type (int, bool, string, []int, []bool, []string, void call, 2-value call; several spellings each) x enclosing context (top level, function, if, for, switch case), everything else in the program well typed; expected verdict from Go's typing rules / the README signatures; both targets must agree; plus (thorough) well-typed generated programs with exactly one operand/condition/argument replaced by a value of another type. Non-trivial = every cell (each is a distinct ill- or well-typed program); distinct = SHA-256 of the source"
 	c.Assumptions = []string{"the expected verdicts encode Go's typing rules for the shared syntax and the README's builtin signatures", "excluded as unspecified: ordering of strings, argument type of panic, equality of slices, printing slices/multi-values, multi-value spread"}
@@ -467,6 +487,18 @@ func checkC06(c *Check) {
 		a, b, dir := transpileBoth(cell.src, nil)
 		va, vb := verdictOf(a), verdictOf(b)
 		res[i] = outc{va, vb}
+		if i%5 == 0 || strings.HasPrefix(cell.key, "fixed/") {
+			msrc, extra := importedVariant(cell.src)
+			ia, ib, idir := transpileBoth(msrc, extra)
+			c.Eval("imported\x00"+cell.src, true)
+			if verdictOf(ia) != cell.expect || verdictOf(ib) != cell.expect {
+				d := ""
+				if ia.Err != nil {
+					d = stripDir(ia.Err.Error(), idir)
+				}
+				c.Violation("imported/"+cell.key, fmt.Sprintf("the same program as an imported file: expected %s, bash=%s batch=%s %s", cell.expect, verdictOf(ia), verdictOf(ib), d), map[string]string{"main.tsh": msrc, "lib.tsh": cell.src})
+			}
+		}
 		c.Eval(cell.src, true)
 		files := map[string]string{"main.tsh": cell.src, "expected": cell.expect}
 		detail := func(r TResult) string {
